@@ -81,6 +81,15 @@ pub fn gen_case(seed: u64, idx: u64, family: u64, max_kt: usize, max_t: usize) -
         .min(kt);
         let N = if rng.chance(1, 3) { 2 } else { 1 };
         Shape { F, T, Z, N, Al }
+    } else if family == 5 {
+        // correlated loss: several blocks of equal size that will all lose the same source positions and
+        // receive the same repair ESIs (a bursty channel, a carousel sender) - only the arrival order differs
+        let k = rng.range(2, 40) as usize;
+        let Z = rng.range(2, 6) as usize;
+        let rem = if rng.chance(1, 2) { 0 } else { rng.below(Z as u64) as usize };
+        let T = *rng.pick(&[1usize, 2, 4, 8, 16, 33]);
+        let N = if T >= 2 && T != 33 && rng.chance(1, 4) { 2 } else { 1 };
+        Shape { F: (k * Z + rem) * T - rng.below(T as u64) as usize, T, Z, N, Al: 1 }
     } else if family == 3 {
         // every extended block size K' of Table 2: K = K' (no padding symbols) and K = previous K' + 1
         // (the most padding symbols this K' can have); idx = 2 * row (+1) + 954 * repetition
@@ -98,9 +107,13 @@ pub fn gen_case(seed: u64, idx: u64, family: u64, max_kt: usize, max_t: usize) -
     let threshold = if family == 3 && shape.kt() > 1000 { *rng.pick(&THRESHOLDS[..2]) } else { *rng.pick(&THRESHOLDS) };
     let incremental_api = rng.chance(2, 5);
     let ks = shape.block_ks();
-    let drop_pct = if family == 4 { rng.below(2) } else if family == 1 { rng.below(4) } else { *rng.pick(&[0u64, 0, 5, 10, 20, 30, 50, 70]) };
+    let drop_pct = if family == 5 { *rng.pick(&[5u64, 10, 20, 30, 50]) } else if family == 4 { rng.below(2) } else if family == 1 { rng.below(4) } else { *rng.pick(&[0u64, 0, 5, 10, 20, 30, 50, 70]) };
     let mut history: Vec<(u8, u32)> = vec![];
+    let block_seed = rng.next();
     for (z, &K) in ks.iter().enumerate() {
+        if family == 5 {
+            rng = Rng::new(block_seed); // every block draws the same loss pattern and the same repair ESIs
+        }
         let mut lost = 0usize;
         // family 3 loses 1..4 chosen source symbols (first / last / random) instead of a percentage
         let mut chosen: HashSet<usize> = HashSet::new();
@@ -444,6 +457,19 @@ pub fn run(ctx: &Ctx) -> i32 {
         ctx.eval(1);
     });
     ctx.cov("large_object_cases_17_to_40_MB", J::i(st.large_objects.load(Relaxed)));
+    // correlated loss across the blocks of one object (identical ESI sets per block, different orders)
+    let nsame = ctx.args.ex_u64("nsame", ctx.args.pick(4000, 60000)) as usize;
+    par_for(nsame, |i| {
+        if ctx.too_many_violations() {
+            return;
+        }
+        crashlog::note(crashlog::CASE, &[ctx.seed(), i as u64, 5, 0, 0, 0]);
+        let c = gen_case(ctx.seed(), i as u64, 5, 0, 0);
+        let rj = case_json(ctx.seed(), i as u64, 5, 0, 0, &c);
+        run_case(ctx, &c, rj, &st);
+        ctx.eval(1);
+    });
+    ctx.cov("multi_block_objects_whose_blocks_all_receive_the_same_ESI_set_(correlated_loss)_in_different_orders", J::i(nsame));
     let nhuge = ctx.args.ex_u64("nhuge", ctx.args.pick(60, 1500)) as usize;
     par_for(nhuge, |i| {
         crashlog::note(crashlog::CASE, &[ctx.seed(), i as u64, 2, 0, 0, 0]);
